@@ -231,6 +231,33 @@ Qed.
 Lemma unify_empty_left b u : unify SEmptyArr b = Some u -> u = b.
 Proof. destruct b; simpl; intro H; inversion H; reflexivity. Qed.
 
+Lemma equals_none_r l : equals l TNone = is_none l.
+Proof. destruct l; reflexivity. Qed.
+
+Lemma equals_erase : forall l r, spec_ty l = true -> spec_ty r = true ->
+  equals l r = sty_eqb (erase l) (erase r).
+Proof.
+  induction l; intros r Hl Hr; destruct r; simpl in *; try discriminate; try reflexivity;
+    try (apply IHl; assumption); try (apply spec_not_none; assumption);
+    try (rewrite equals_none_r; apply spec_not_none; assumption).
+Qed.
+
+Lemma erase_merge_fixed : forall t t2, spec_ty t = true -> spec_ty t2 = true -> equals t t2 = true ->
+  erase (merge_fixed t t2) = erase t.
+Proof.
+  induction t; intros t2 Hs Hs2 He; simpl;
+    try (destruct (negb (has_fixed t2) || _); [reflexivity|]; simpl;
+         rewrite equals_erase in He by assumption; apply sty_eqb_eq in He; simpl in He; congruence).
+  - destruct (negb (has_fixed t2) || false) eqn:C; [reflexivity|].
+    destruct (negb (fx || has_fixed t)) eqn:D.
+    + rewrite equals_erase in He by assumption. apply sty_eqb_eq in He. simpl in He. congruence.
+    + destruct t2; simpl in *; try discriminate; try reflexivity. f_equal. apply IHt; assumption.
+  - destruct (negb (has_fixed t2) || false) eqn:C; [reflexivity|].
+    destruct (negb (fx || has_fixed t)) eqn:D.
+    + rewrite equals_erase in He by assumption. apply sty_eqb_eq in He. simpl in He. congruence.
+    + destruct t2; simpl in *; try discriminate; try reflexivity. f_equal. apply IHt; assumption.
+Qed.
+
 (* result type.  [bnt0] is binary_node_type without the final fixedType (which
    does not change the erased type). *)
 Definition bnt0 (op : binop) (lt rt : ty) : ty :=
@@ -240,10 +267,21 @@ Definition bnt0 (op : binop) (lt rt : ty) : ty :=
 Lemma erase_fixed_type t : erase (fixed_type t) = erase t.
 Proof. destruct t; reflexivity. Qed.
 
-Lemma bnt_erase op lt rt : erase (binary_node_type op lt rt) = erase (bnt0 op lt rt).
+Lemma spec_fixed_type t : spec_ty (fixed_type t) = spec_ty t.
+Proof. destruct t; reflexivity. Qed.
+
+Lemma bnt_erase op lt rt : spec_ty lt = true -> spec_ty rt = true ->
+  erase (binary_node_type op lt rt) = erase (bnt0 op lt rt).
 Proof.
-  unfold binary_node_type, bnt0.
-  destruct (is_array_name _ && fixed rt); [apply erase_fixed_type | reflexivity].
+  intros Hl Hr. unfold binary_node_type. fold (bnt0 op lt rt).
+  assert (Hb : spec_ty (bnt0 op lt rt) = true).
+  { unfold bnt0. destruct (is_comparison op); [destruct (_ && _); auto|]. destruct (_ && _); auto. }
+  set (t1 := if is_plus op && is_array_name (bnt0 op lt rt) && equals (bnt0 op lt rt) rt
+             then merge_fixed (bnt0 op lt rt) rt else bnt0 op lt rt).
+  assert (E1 : erase t1 = erase (bnt0 op lt rt)).
+  { unfold t1. destruct (is_plus op && is_array_name (bnt0 op lt rt) && equals (bnt0 op lt rt) rt) eqn:C; [|reflexivity].
+    apply andb_true_iff in C as [_ C]. apply erase_merge_fixed; assumption. }
+  destruct (is_array_name t1 && fixed rt); [rewrite erase_fixed_type|]; exact E1.
 Qed.
 
 (* before commit f8788c6: the T of the node was the table's result type only
@@ -283,7 +321,7 @@ Theorem binop_result_type op lt rt :
   (has_empty lt = false \/ lt = TEmptyArr) ->
   OpType op (erase lt) (erase rt) (erase (binary_node_type op lt rt)).
 Proof.
-  intros Hl Hr Hv Hg. rewrite bnt_erase. destruct Hg as [He | ->].
+  intros Hl Hr Hv Hg. rewrite bnt_erase by assumption. destruct Hg as [He | ->].
   - replace (bnt0 op lt rt) with (binary_node_type_old op lt rt).
     + apply binop_result_type_old; auto.
     + unfold binary_node_type_old, bnt0.
@@ -297,15 +335,7 @@ Proof.
       try discriminate.
 Qed.
 
-(* the Fixed flag of the node: a concatenation / repetition is as rigid as its
-   right operand or its left operand *)
-Lemma binop_result_fixed op lt rt :
-  is_array_name (bnt0 op lt rt) = true -> fixed rt = true ->
-  fixed (binary_node_type op lt rt) = true \/ is_empty (bnt0 op lt rt) = true \/ is_generic (bnt0 op lt rt) = true.
-Proof.
-  intros Ha Hf. unfold binary_node_type. fold (bnt0 op lt rt). rewrite Ha, Hf. simpl.
-  destruct (bnt0 op lt rt); simpl in *; auto; discriminate.
-Qed.
+
 
 (* regression lemma about the code BEFORE f8788c6: [] * n was typed by its right operand *)
 Lemma binop_result_type_before_fix_refuted :
@@ -409,16 +439,7 @@ Proof.
 Qed.
 
 (* ---------- combineTypes on constants: the strictest common type ---------- *)
-Lemma equals_none_r l : equals l TNone = is_none l.
-Proof. destruct l; reflexivity. Qed.
 
-Lemma equals_erase : forall l r, spec_ty l = true -> spec_ty r = true ->
-  equals l r = sty_eqb (erase l) (erase r).
-Proof.
-  induction l; intros r Hl Hr; destruct r; simpl in *; try discriminate; try reflexivity;
-    try (apply IHl; assumption); try (apply spec_not_none; assumption);
-    try (rewrite equals_none_r; apply spec_not_none; assumption).
-Qed.
 
 Lemma cjoin_comm : forall a b, cjoin a b = cjoin b a.
 Proof.
@@ -1037,16 +1058,51 @@ Proof.
   rewrite <- K. apply accepts_iff_assignable; [exact HT | unfold pure_ty; rewrite Hv; apply orb_true_r].
 Qed.
 
-(* a second, empty-free witness against wrap_total on the current tree:
-   parseBinaryExpr looks only at the TOP-LEVEL Fixed flag of the right operand,
-   so  [[1]] + [nums]  (nums a variable) keeps the unfixed type [][]num of its
-   left operand, accepts lets it through for [][]any, and wrapAny then tries
-   to convert the variable nums.   nums := [1] ; a:[][]any ; a = [[1]] + [nums] *)
-Lemma wrap_total_concat_inner_fixed_refuted :
-  exists e n target, tc e = ONode n false /\ accepts target (node_type n) = true /\ wrap_any n target = None /\
-    has_empty (node_type n) = false.
+(* regression, about parseBinaryExpr before commit 6b5553c: only the TOP-LEVEL
+   Fixed flag of the right operand was looked at, so  [[1]] + [nums]  (nums a
+   variable) kept the unfixed type [][]num of its left operand; accepts let it
+   through for [][]any although the right operand itself is not accepted — and
+   wrapAny then panicked on nums.   nums := [1] ; a:[][]any ; a = [[1]] + [nums] *)
+Lemma concat_inner_fixed_before_fix_refuted :
+  exists lt rt target, validate_binary OpPlus lt rt = true /\ has_empty lt = false /\ has_empty rt = false /\
+    accepts target (binary_node_type_pre_6b5553c OpPlus lt rt) = true /\ accepts target rt = false.
 Proof.
-  exists (EBin OpPlus (EArr [EArr [ELitNum]]) (EArr [EVar (SArr SNum)])). eexists.
-  exists (TArr true (TArr false TAny)).
-  split; [vm_compute; reflexivity|]. repeat split; vm_compute; reflexivity.
+  exists (TArr false (TArr false TNum)), (TArr false (TArr true TNum)), (TArr true (TArr false TAny)).
+  repeat split; reflexivity.
+Qed.
+
+(* on the current tree the same program is a type error, and the node type carries the variable's flag *)
+Lemma concat_inner_fixed_now :
+  binary_node_type OpPlus (TArr false (TArr false TNum)) (TArr false (TArr true TNum)) = TArr false (TArr true TNum) /\
+  check (CAssign (SArr (SArr SAny))) (EBin OpPlus (EArr [EArr [ELitNum]]) (EArr [EVar (SArr SNum)])) = Reject /\
+  check (CAssign (SArr SAny)) (EBin OpPlus (EArr [EArr [ELitNum]]) (EArr [EVar (SArr SNum)])) = Reject /\
+  check (CAssign (SArr (SArr SNum))) (EBin OpPlus (EArr [EArr [ELitNum]]) (EArr [EVar (SArr SNum)])) =
+    Accept (TArr true (TArr false TNum)) (TArr false (TArr true TNum)).
+Proof. vm_compute. repeat split; reflexivity. Qed.
+
+(* the node type of a binary expression over specification types is a specification type *)
+Lemma spec_merge_fixed : forall t t2, spec_ty t = true -> spec_ty t2 = true -> spec_ty (merge_fixed t t2) = true.
+Proof.
+  induction t; intros t2 Hs Hs2; simpl in Hs; try discriminate Hs; simpl;
+    try (destruct (negb (has_fixed t2) || _); [reflexivity|]; simpl; assumption).
+  - destruct (negb (has_fixed t2) || false) eqn:C; [assumption|].
+    destruct (negb (fx || has_fixed t)); [assumption|].
+    destruct t2; simpl in *; try discriminate C; try assumption; apply IHt; assumption.
+  - destruct (negb (has_fixed t2) || false) eqn:C; [assumption|].
+    destruct (negb (fx || has_fixed t)); [assumption|].
+    destruct t2; simpl in *; try discriminate C; try assumption; apply IHt; assumption.
+Qed.
+
+Lemma binary_node_type_spec_ty op lt rt :
+  spec_ty lt = true -> spec_ty rt = true -> spec_ty (binary_node_type op lt rt) = true.
+Proof.
+  intros Hl Hr. unfold binary_node_type.
+  set (t0 := if is_empty_arr (if is_comparison op then TBool else lt) && is_plus op then rt
+             else if is_comparison op then TBool else lt).
+  assert (H0 : spec_ty t0 = true).
+  { unfold t0. destruct (is_comparison op); destruct (_ && _); auto. }
+  set (t1 := if is_plus op && is_array_name t0 && equals t0 rt then merge_fixed t0 rt else t0).
+  assert (H1 : spec_ty t1 = true).
+  { unfold t1. destruct (_ && _ && _); [apply spec_merge_fixed; assumption | exact H0]. }
+  destruct (is_array_name t1 && fixed rt); [rewrite spec_fixed_type|]; exact H1.
 Qed.
